@@ -104,7 +104,8 @@ def run_probe(p, enc, idx=None):
 
 def check_shape(shape, out):
     cnt, oc = out["counters"], out["outcomes"]
-    vals = abi_gen.values(shape, cap=_CAP, rich=_RICH)
+    # values whose encoding does not fit an AVM byte string (4096) cannot be passed in: outside the alphabet
+    vals = [v for v in abi_gen.values(shape, cap=_CAP, rich=_RICH) if len(abi_gen.encode(shape, v)) <= 4000]
     encs = [abi_gen.encode(shape, v) for v in vals]
 
     def viol(why, probe, backend, ver, v=None, idx=None, feats=None):
